@@ -15,7 +15,7 @@ from sim import core, canon, ops, histories
 from checks.common import PoolCheck, jcopy, short
 
 ABORT_KINDS = ('stop_hook', 'hook_skip', 'hook_lax', 'extra_validator_raise', 'extra_validator_error',
-               'value_hook_raise', 'element_hook_raise', 'filler_raise', 'eio', 'async', 'async')
+               'value_hook_raise', 'element_hook_raise', 'filler_raise', 'eio', 'async', 'async', 'async_in', 'async_in')
 
 
 class C10(PoolCheck):
@@ -23,7 +23,8 @@ class C10(PoolCheck):
     LEVEL = 'exploration'
     GROUP = 1
     CASE_TIMEOUT = 120.0
-    FAMILIES = ('xsitype', 'ids', 'keys', 'fixed', 'wild', 'subst', 'assert11', 'ns', 'mixed', 'shadow', 'idfields')
+    FAMILIES = ('xsitype', 'ids', 'keys', 'fixed', 'wild', 'subst', 'assert11', 'ns', 'mixed', 'shadow', 'idfields',
+                'ondemand')
     CORPUS = False
     ASYNC = True
     RULE = ("case = history of 2-12 operations (validate / is_valid / iter_errors drained or abandoned / decode "
@@ -68,6 +69,16 @@ class C10(PoolCheck):
         # a small colliding document pool for this history
         k = min(len(e.docs), rng.randrange(2, 7))
         pool = rng.sample(range(len(e.docs)), k)
+        focused = rng.random() < 0.3
+        if focused:
+            # documents that share a name stem (one root declaration / one feature) meet the same schema state: the
+            # first one writes it - under an abort inside a state-writing function - the others read it
+            stem = '-'.join(e.docs[rng.randrange(len(e.docs))].name.split('-')[:2])
+            group = [i for i, d in enumerate(e.docs) if d.name.startswith(stem)]
+            if len(group) >= 2:
+                pool = group
+            else:
+                focused = False
         n_aborts = rng.choice([0, 0, 1, 1, 2, 3])
         abort_at = set(rng.sample(range(n), min(n_aborts, n - 1))) if n_aborts else set()
         hist = []
@@ -75,14 +86,27 @@ class C10(PoolCheck):
             op = dict(rng.choice(m))
             op['doc'] = rng.choice(pool)
             if i in abort_at and i < n - 1 and op['api'] in histories.HOOKABLE_APIS:
-                kind = rng.choice(ABORT_KINDS if self.ASYNC else [a for a in ABORT_KINDS if a != 'async'])
+                kinds = ABORT_KINDS if self.ASYNC else [a for a in ABORT_KINDS if not a.startswith('async')]
+                if hasattr(e.family, 'peer_pages'):
+                    kinds = tuple(kinds) + ('fetch_fail',) * 4
+                kind = rng.choice(kinds)
                 if kind in histories.DECODE_ONLY_HOOKS and op['api'] not in histories.DECODE_APIS:
                     kind = 'stop_hook'
                 if kind == 'async':
                     op['abort'] = {'kind': 'async', 'frac': round(rng.random(), 4)}
+                elif kind == 'async_in':
+                    # half of them inside the functions that write schema state during a validation
+                    op['abort'] = {'kind': 'async_in', 't': rng.choice(histories.HOT_TARGETS) if rng.random() < 0.5
+                                   else rng.randrange(len(histories.ABORT_TARGETS)),
+                                   'j': rng.choice([1, 1, 2, 2, 3, 4, 5, 7, 10, 15, 25])}
                 else:
                     op['abort'] = {'kind': kind, 'k': rng.randrange(1, 12)}
             hist.append(op)
+        if focused and hist[0]['api'] in histories.HOOKABLE_APIS and rng.random() < 0.8:
+            hist[0]['abort'] = {'kind': 'async_in', 't': rng.choice(histories.HOT_TARGETS),
+                                'pos': rng.choice(['first', 'last', 'last', 'last1', 'mid']), 'frac': round(rng.random(), 3)}
+        if hasattr(e.family, 'peer_pages') and rng.random() < 0.5 and hist[0]['api'] in histories.HOOKABLE_APIS and n > 1:
+            hist[0]['abort'] = {'kind': 'fetch_fail', 'k': rng.randrange(1, 12)}   # before anything could be loaded
         return {'entry': key, 'history': hist, 'knobs': histories.gen_knobs(rng)}
 
     def run_case(self, case):
@@ -104,7 +128,9 @@ class C10(PoolCheck):
                 ab = op.get('abort')
                 skel.append([op['api'], op.get('lazy', 0), op.get('conv'), op.get('path'), op['doc'],
                              ab['kind'] if ab else None,
-                             (int(ab.get('frac', 0) * 5) if ab and ab['kind'] == 'async' else (ab or {}).get('k'))])
+                             (int(ab.get('frac', 0) * 5) if ab and ab['kind'] == 'async' else
+                              [ab['t'], ab.get('j') or ab.get('pos')] if ab and ab['kind'] == 'async_in' else
+                              (ab or {}).get('k'))])
                 if r['aborted']:
                     aborted_any = True
                 if r['judged'] and not ab:
@@ -115,6 +141,8 @@ class C10(PoolCheck):
                                'lazy': bool(op.get('lazy')),
                                'after_abort': prev_aborted,
                                'diff': diff_class(res, ref)}
+                        if e.docs[op['doc']].kind == 'fault:root':
+                            sig['doc'] = 'root-of-on-demand-namespace'
                         violations.append({'signature': sig, 'detail': {
                             'entry': case['entry'], 'index': i, 'op': op, 'doc': e.docs[op['doc']].name,
                             'history': [[o['api'], e.docs[o['doc']].name if 'doc' in o else None, o.get('abort')]
@@ -156,6 +184,10 @@ class C10(PoolCheck):
                 c = jcopy(case)
                 del c['history'][k]['abort']
                 yield c
+                if op['abort']['kind'] == 'async_in' and (op['abort'].get('j') or 0) > 1:
+                    c = jcopy(case)
+                    c['history'][k]['abort']['j'] = op['abort']['j'] // 2
+                    yield c
                 if op['abort']['kind'] == 'async':
                     for f in (0.25, 0.5, 0.75):
                         c = jcopy(case)
